@@ -5,12 +5,30 @@ BASE = json.load(open('/root/.vp/BASELINE.json'))
 LEVEL_TEXT = ("bounded symbolic model checking of the real code: the relevant starlark-go functions are executed from their go/ssa form "
   "by the symgo engine with inputs as SMT variables; every assertion is decided by z3 for all inputs satisfying the path condition, "
   "within the bounds recorded in the evidence file; counterexamples are replayed natively before being reported; nothing is claimed outside the bounds")
-NOTE = ("trusted: go/ssa construction, the engine's SSA interpretation (cross-checked per run by natively replaying sampled solver models: "
+NOTE = ("each property is claimed only within the bounds recorded in its evidence file (coverage.harnesses[].bounds) and the 'outside the claim' list of its DESIGN.md section; trusted: go/ssa construction, the engine's SSA interpretation (cross-checked per run by natively replaying sampled solver models: "
   "traces_validated_against_impl), z3 4.8.12 verdicts, and the environment stubs listed in DESIGN.md 2.5; bounds are per harness (see evidence.coverage.harnesses[].bounds)")
 CHECKS = {
  # id: (design_ref, technique, extra note)
- "C10": ("DESIGN.md 5/C10", "SMT-decided symbolic execution of Int/range kernels from go/ssa", ""),
- "C16": ("DESIGN.md 5/C16", "SMT-decided symbolic execution of the position-table encoder/decoder from go/ssa", ""),
+ "C01": ("DESIGN.md 5/C01", "SMT-decided symbolic execution (go/ssa) of resolver+compiler+VM against a reference tree-walking evaluator on a bounded family of program skeletons with symbolic leaves; varint/stack-effect kernels at full width", "the universal quantifier over programs is bounded by the 76 skeletons + operator templates listed in the evidence"),
+ "C02": ("DESIGN.md 5/C02", "SMT-decided symbolic execution of every built-in/method call over a pool of symbolic argument values, of parse+resolve+compile+run on symbolic source bytes, and of cyclic value graphs; panics and stack overflows are observable outcomes", "sources <= 3 symbolic bytes; <= 2 (3) arguments; allocations > 2^24 elements pruned"),
+ "C03": ("DESIGN.md 5/C03", "SMT-decided symbolic execution with every Go map range order explored as a nondeterministic permutation, and the maphash seed as an uninterpreted symbolic value (2-safety against a hash-blind model)", "cross-process/concurrent runs replaced by seed- and map-order-independence"),
+ "C04": ("DESIGN.md 5/C04", "SMT-decided symbolic execution of every mutator with symbolic frozen flag/iterator count/contents, of Freeze over symbolic object graphs, and of derived-value aliasing", ""),
+ "C05": ("DESIGN.md 5/C05", "SMT-decided symbolic execution with a write-set/read-set log: no non-atomic store (and no pre-Once load) into cells reachable from frozen values or a shared Funcode; native replays run under the race detector", "sufficient condition (write-set non-interference) instead of interleavings"),
+ "C06": ("DESIGN.md 5/C06", "SMT-decided symbolic execution of compiled iterating constructs and iterating built-ins under symbolic fault schedules (error/panic/cancel/step limit at every point)", ""),
+ "C07": ("DESIGN.md 5/C07", "SMT-decided symbolic execution of the VM with a symbolic step limit and symbolic cancellation schedules", "programs are a fixed set; initial step counts from a small set"),
+ "C08": ("DESIGN.md 5/C08", "SMT-decided symbolic execution of setArgs/UnpackArgs/CALL flattening against an independent Python-3 binding reference, keyword names symbolic", ""),
+ "C09": ("DESIGN.md 5/C09", "SMT-decided symbolic execution of resolve.File over symbolically constructed syntax trees under all 2^6 option vectors, and of the dynamic recursion check", ""),
+ "C10": ("DESIGN.md 5/C10", "SMT-decided symbolic execution of Int/range kernels from go/ssa against 128-bit reference arithmetic, three Int representations", "one multiplicative/divisor operand is a structural choice from a constant set (symbolic x symbolic 64-bit mul/div is beyond the solver)"),
+ "C11": ("DESIGN.md 5/C11", "SMT-decided symbolic execution of CompareDepth/Hash/sorted over symbolic floats (all bit patterns), ints, strings, tuples", ""),
+ "C12": ("DESIGN.md 5/C12", "SMT-decided symbolic execution of the hashtable with symbolic hash values (every hash function / collision pattern) against an association-list model over symbolic operation histories", "histories of bounded length from adversarial presets"),
+ "C13": ("DESIGN.md 5/C13", "SMT-decided symbolic execution of slicing/indexing/find/split/strip/list methods against CPython-semantics references over symbolic operands", "receivers of bounded length over ASCII"),
+ "C14": ("DESIGN.md 5/C14", "SMT-decided symbolic execution of the real scanner and parser on symbolic bytes / operator choices against independent maximal-munch and precedence references", ""),
+ "C15": ("DESIGN.md 5/C15", "SMT-decided symbolic execution of Quote/unquote/ParseExpr round trips over symbolic byte strings; repr/eval round trip; cycle printing", "strings <= 3 bytes plus single runes"),
+ "C16": ("DESIGN.md 5/C16", "SMT-decided symbolic execution of the position-table encoder/decoder and binary search with symbolic positions; failing-operation positions on compiled programs", ""),
+ "C17": ("DESIGN.md 5/C17", "SMT-decided symbolic execution of Encode/DecodeProgram with every scalar field a distinct symbolic value; full-width scalar codecs; VM equivalence of decoded programs", "fixed program shape"),
+ "C18": ("DESIGN.md 5/C18", "SMT-decided symbolic execution of json.decode on symbolic bytes against an RFC 8259 pushdown recogniser and reference parser; encode structure and round trip", "documents <= 5-7 bytes; no escapes/non-ASCII (encoding/json not interpretable)"),
+ "C19": ("DESIGN.md 5/C19", "SMT-decided symbolic execution of Duration/Time Binary, Cmp, Hash and the real time.Time Add/Sub against exact (sec, nsec) reference arithmetic", "time window +-2^61 ns; division by 1e9 encoded relationally"),
+ "C20": ("DESIGN.md 5/C20", "SMT-decided symbolic execution of the scalar conversion kernel toProto/toStarlark1/enumValueOf per protoreflect.Kind", "ONLY the typing/range half of the property: freeze/alias histories, repeated/map positions and marshal/unmarshal are outside the claim (dynamicpb/protobuf internals are not modelled)"),
 }
 NA = {}
 props = [json.loads(l)['id'] for l in open('properties.jsonl')]
